@@ -159,6 +159,28 @@ func probeFrameMetadata(s *vkit.Stats) {
 	s.ProbeOK("origin-placeholder-frame-metadata")
 }
 
+// surveyEntryJumps records (does not judge) how many corpus functions, once mocked, execute the tail of goom's entry jump
+// under a frame table that disagrees with it: the same open finding at its second site (the jump is MOV RDX, imm64;
+// JMP [RDX]; functions whose own prologue has pushed something before the second instruction's offset are affected).
+func surveyEntryJumps(s *vkit.Stats) {
+	for _, fn := range corpus.Fns {
+		b := mocker.Create()
+		pv := guard(func() { b.Func(fn.Fn).Apply(fn.MkRepl(&corpus.Rec{})) })
+		if pv == nil {
+			mm, judged := frameMismatch(reflect.ValueOf(fn.Fn).Pointer())
+			switch {
+			case !judged:
+				s.Class("entry-jump-survey/not-judged")
+			case mm != "":
+				s.Class("entry-jump-survey/frame-table-disagrees-at-the-jump(open finding, recorded)")
+			default:
+				s.Class("entry-jump-survey/frame-table-agrees")
+			}
+		}
+		b.Reset()
+	}
+}
+
 type steady struct {
 	name  string
 	check func(i int) error // one call + oracle; must not write shared state
@@ -564,6 +586,7 @@ func TestVerifC11(t *testing.T) {
 	s := p.Main(t, vkit.Scale(40, 600))
 	if !vkit.Replaying() {
 		probeFrameMetadata(s)
+		surveyEntryJumps(s)
 		s.Done()
 	}
 }
